@@ -92,6 +92,7 @@ private:
     virtual Action visitPointerDeclarator(const PointerDeclaratorSyntax*) override;
     virtual Action visitParenthesizedDeclarator(const ParenthesizedDeclaratorSyntax*) override;
     virtual Action visitIdentifierDeclarator(const IdentifierDeclaratorSyntax*) override;
+    virtual Action visitAbstractDeclarator(const AbstractDeclaratorSyntax*) override;
     Action visitDeclarator_COMMON(const DeclaratorSyntax*);
 };
 
